@@ -13,6 +13,12 @@
 (*     (explicit or implicit) and, when undiscounted, of states that cannot reach an     *)
 (*     absorbing state are zeroed.                                                       *)
 (* (P) invariants: see the bottom of the module.                                        *)
+(*     Call histories: a batch entry with algs = <<"warm">> and a field next stands for   *)
+(*     an earlier plan_on call of the same planner object on another MDP; Replan starts   *)
+(*     the follow-up call in the initial state of its machine (planner objects carry      *)
+(*     nothing from one call to the next).                                                *)
+(*     Near-one discounts (field near = 1): discount 1 - 1/D with D ~ 1e5, on a shape     *)
+(*     whose optimal values are integers over PD (NearOracle).                            *)
 (* Modes (IOEnv.MODE): "mc" explores the machines over the batch and emits, per          *)
 (* (instance, machine), the exact result the code must produce; "judge" reads policies   *)
 (* returned by the real planners and evaluates them exactly (pipeline B, one Plan event).*)
@@ -83,16 +89,46 @@ Oracle(m) ==
    leaks |-> {s \in St(m) \ Masked(m) : \E a \in Avail(m, s) : \E t \in Succ(m, s, a) :
                  t \in CannotReach(m) /\ vs[t] # <<0, 1>>}]
 
+\* ------------------------------------------------------------------ near-one discounts (field near = 1)
+\* discount 1 - 1/D with D = GD ~ 1e5, closer to 1 than the window of numpy.isclose: the generic oracle
+\* would leave 32-bit integers, so this family is restricted to a shape whose optimal values are integers
+\* over PD:  T "loop" states - every available action is a pure self-loop paying R[t][a][t], so
+\*           V(t) = D * max_a R[t][a][t];   U the other non-absorbing states - every available action
+\*           leads into T and explicitly absorbing states only.
+\* A discounted MDP has no cannot-reach states: loop states are worth r/(1-gamma), never a placeholder.
+IsNear(m) == "near" \in DOMAIN m /\ m.near = 1
+NearT(m) == {s \in NonAbs(m) : Avail(m, s) # {} /\ \A a \in Avail(m, s) : m.P[s][a][s] = m.PD}
+NearU(m) == NonAbs(m) \ NearT(m)
+NearOK(m) == /\ m.GN = m.GD - 1
+             /\ \A u \in NearU(m) : /\ Avail(m, u) # {}
+                                    /\ \A a \in Avail(m, u) : Succ(m, u, a) \subseteq NearT(m) \cup ExplAbs(m)
+NearBest(m, t) == MaxSet({m.R[t][a][t] : a \in Avail(m, t)})
+\* gamma * V(t) in whole units: (D - 1) * best reward of a loop state, 0 at an absorbing state
+NearNext(m, t) == IF t \in NearT(m) THEN (m.GD - 1) * NearBest(m, t) ELSE 0
+\* action values in units of 1/PD
+NearQ2(m, s, a) == IF s \in NearT(m) THEN m.PD * (m.R[s][a][s] + NearNext(m, s))
+                   ELSE SumTo([t \in St(m) |-> m.P[s][a][t] * (m.R[s][a][t] + NearNext(m, t))], m.N)
+NearOracle(m) ==
+  LET q == TLCEval([s \in St(m) |-> [a \in Ac(m) |->
+              IF s \in ExplAbs(m) \/ a \notin Avail(m, s) THEN UNAV ELSE Norm(Safe(NearQ2(m, s, a)), m.PD)]])
+      v == [s \in St(m) |-> IF s \in ExplAbs(m) THEN <<0, 1>> ELSE RMaxSet({q[s][a] : a \in Avail(m, s)})]
+  IN [v |-> v, q |-> q, cannot |-> {}, absall |-> AbsAll(m), neginf |-> {}, leaks |-> {}]
+OracleFor(m) == IF IsNear(m)
+                THEN (IF NearOK(m) THEN NearOracle(m) ELSE Assert(FALSE, <<"near-one instance outside the family", m>>))
+                ELSE Oracle(m)
+
 \* ------------------------------------------------------------------ machine
+\* the state in which a plan_on call on instance i with machine al starts
+Start(i, al) ==
+  [V |-> Zero(Inst(i)), Q |-> QTable(Inst(i), Zero(Inst(i))),
+   sup |-> [s \in St(Inst(i)) |-> Avail(Inst(i), s)],
+   opt |-> IF al \in {"pi", "judge", "warm"} THEN <<>> ELSE OracleFor(Inst(i))]
 Init ==
   /\ iid \in Slice
   /\ alg \in (IF Mode = "judge" THEN {"judge"} ELSE Range(Inst(iid).algs))
   /\ phase = "run"
   /\ k = 0
-  /\ V = Zero(Inst(iid))
-  /\ Q = QTable(Inst(iid), Zero(Inst(iid)))
-  /\ sup = [s \in St(Inst(iid)) |-> Avail(Inst(iid), s)]
-  /\ opt = IF alg = "pi" \/ alg = "judge" THEN <<>> ELSE Oracle(Inst(iid))
+  /\ LET st == Start(iid, alg) IN V = st.V /\ Q = st.Q /\ sup = st.sup /\ opt = st.opt
 
 \* for i in range(CAP): q = Q(V); V1 = max q; if close: break; V = V1      -> returns V, q, i
 VecSweep ==
@@ -144,11 +180,38 @@ JudgeStep ==
   /\ alg = "judge" /\ phase = "run" /\ phase' = "done"
   /\ UNCHANGED <<iid, alg, k, V, Q, sup, opt>>
 
-Next == VecSweep \/ DictSweep \/ PISweep \/ OracleStep \/ JudgeStep
+\* call histories: an earlier call of the same planner object on another MDP (whatever it computed) ...
+HasNext(m) == "next" \in DOMAIN m /\ m.next > 0
+WarmStep == alg = "warm" /\ phase = "run" /\ phase' = "done" /\ UNCHANGED <<iid, alg, k, V, Q, sup, opt>>
+\* ... followed by a call on the instance M.next: it starts exactly like a first call
+Replan ==
+  /\ phase # "run" /\ HasNext(M)
+  /\ iid' = M.next
+  /\ alg' \in Range(Inst(M.next).algs)
+  /\ phase' = "run" /\ k' = 0
+  /\ LET st == Start(iid', alg') IN V' = st.V /\ Q' = st.Q /\ sup' = st.sup /\ opt' = st.opt
+
+Next == VecSweep \/ DictSweep \/ PISweep \/ OracleStep \/ JudgeStep \/ WarmStep \/ Replan
 Spec == Init /\ [][Next]_vars
 
 \* ------------------------------------------------------------------ emission (pipeline A / B)
-JudgeRecord(m) ==
+\* near-one family: exact value of the uniform policy over the returned support sets, in closed form
+\* (loop state: D * average reward; predecessor: average look-ahead), denominators 6 and 36 * PD
+NearAvg6(m, sp, t) == SumSet([a \in Ac(m) |-> (6 \div Cardinality(sp[t])) * m.R[t][a][t]], sp[t])
+NearPV(m, sp) ==
+  [s \in St(m) |->
+     IF s \in ExplAbs(m) THEN <<0, 1>>
+     ELSE IF s \in NearT(m) THEN Norm(Safe(m.GD * NearAvg6(m, sp, s)), 6)
+     ELSE Norm(Safe(SumSet([a \in Ac(m) |-> (6 \div Cardinality(sp[s])) *
+                      SumTo([t \in St(m) |-> m.P[s][a][t] * (6 * m.R[s][a][t] +
+                               (IF t \in NearT(m) THEN (m.GD - 1) * NearAvg6(m, sp, t) ELSE 0))], m.N)], sp[s])),
+               36 * m.PD)]
+NearJudgeRecord(m) ==
+  LET sp == [s \in NonAbs(m) |-> {a \in Ac(m) : m.pol[s][a] = 1}]
+      pv == NearPV(m, sp)
+  IN [iid |-> iid, tag |-> m.tag, kind |-> "judge", pv |-> pv, pinit |-> InitialValue(m, pv),
+      pfix |-> InitialValue(m, pv), steps |-> StepsValue(m, UniformW(m, sp), 6)]
+GenericJudgeRecord(m) ==
   LET sp == [s \in NonAbs(m) |-> {a \in Ac(m) : m.pol[s][a] = 1}]
       w  == UniformW(m, sp)
       pv == PolicyValue(m, w, 6)
@@ -164,9 +227,11 @@ JudgeRecord(m) ==
   IN [iid |-> iid, tag |-> m.tag, kind |-> "judge", pv |-> pv, pinit |-> InitialValue(m, pv),
       pfix |-> IF cr = {} THEN InitialValue(m, pv) ELSE fixed,
       steps |-> StepsValue(m, w, 6)]
+JudgeRecord(m) == IF IsNear(m) THEN NearJudgeRecord(m) ELSE GenericJudgeRecord(m)
 Emit ==
   phase # "run" =>
-    IF alg = "oracle" THEN
+    IF alg = "warm" THEN TRUE
+    ELSE IF alg = "oracle" THEN
       PrintT(ToJson([iid |-> iid, kind |-> "oracle", v |-> opt.v, q |-> opt.q, cannot |-> opt.cannot,
                      absall |-> opt.absall, neginf |-> opt.neginf, leaks |-> opt.leaks,
                      vinit |-> InitialValue(M, opt.v),
@@ -200,6 +265,8 @@ PIOptimal ==
      /\ \A s \in St(M) \ Masked(M) : sup[s] = {a \in Avail(M, s) : o.q[s][a] = o.v[s]}
 \* (P5) discounted policy iteration never meets a singular system
 PINotSingularDisc == (alg = "pi" /\ Discounted(M)) => phase # "singular"
+\* (P6) every call starts afresh, whatever the planner object did before
+CallsStartAfresh == [][(phase # "run" /\ phase' = "run") => (k' = 0 /\ V' = Zero(Inst(iid')))]_vars
 \* instance filter: the batch is well formed
 InstancesWellFormed == WellFormed(M)
 =============================================================================
